@@ -40,9 +40,12 @@ func batchClosures(c *Ctx) (batcher, producer *ssa.Function, bi *bgInfo) {
 	}
 	for _, g := range bi.spawned {
 		big := false
-		for _, op := range chanOpsOf(g) {
-			if op.kind == "select" && op.blocking && len(op.arms) >= 3 {
-				big = true
+		// (the select may sit in a local closure the goroutine calls round after round: step := func() bool {...}; for step() {})
+		for _, h := range withAnon(g) {
+			for _, op := range chanOpsOf(h) {
+				if op.kind == "select" && op.blocking && len(op.arms) >= 3 {
+					big = true
+				}
 			}
 		}
 		if big {
@@ -77,7 +80,7 @@ func ruleBatchTimer(c *Ctx, r *R) {
 			}
 			for i, a := range op.arms {
 				if a.send && fieldOfChan(a.ch) == "batchC" {
-					batchCell = loadVar(sel.States[i].Send)
+					batchCell = loadVar(throughLiteralParam(sel.States[i].Send))
 				}
 				if !a.send && a.kind == "timer" {
 					timerCCell = loadVar(a.ch)
@@ -441,93 +444,113 @@ func ruleBatchElapsed(c *Ctx, r *R) {
 	}
 	// the guard in the waiting arm
 	found := false
-	instrs(batcher, func(b *ssa.BasicBlock, i int, in ssa.Instruction) {
-		iff, ok := in.(*ssa.If)
-		if !ok {
-			return
-		}
-		bin, ok := iff.Cond.(*ssa.BinOp)
-		if !ok {
-			return
-		}
-		var overIdx int
-		switch {
-		case isSince(bin.X) && isMaxWait(bin.Y):
-			switch bin.Op {
-			case token.GTR, token.GEQ:
-				overIdx = 0
-			case token.LSS, token.LEQ:
-				overIdx = 1
+	for _, bh := range withAnon(batcher) {
+		instrs(bh, func(b *ssa.BasicBlock, i int, in ssa.Instruction) {
+			iff, ok := in.(*ssa.If)
+			if !ok {
+				return
+			}
+			bin, ok := iff.Cond.(*ssa.BinOp)
+			if !ok {
+				return
+			}
+			var overIdx int
+			switch {
+			case isSince(bin.X) && isMaxWait(bin.Y):
+				switch bin.Op {
+				case token.GTR, token.GEQ:
+					overIdx = 0
+				case token.LSS, token.LEQ:
+					overIdx = 1
+				default:
+					return
+				}
+			case isMaxWait(bin.X) && isSince(bin.Y):
+				switch bin.Op {
+				case token.LSS, token.LEQ:
+					overIdx = 0
+				case token.GTR, token.GEQ:
+					overIdx = 1
+				default:
+					return
+				}
 			default:
 				return
 			}
-		case isMaxWait(bin.X) && isSince(bin.Y):
-			switch bin.Op {
-			case token.LSS, token.LEQ:
-				overIdx = 0
-			case token.GTR, token.GEQ:
-				overIdx = 1
-			default:
-				return
-			}
-		default:
-			return
-		}
-		found = true
-		over, under := b.Succs[overIdx], b.Succs[1-overIdx]
-		callsIn := func(blk *ssa.BasicBlock, pred func(f *ssa.Function) bool) bool {
-			res := false
-			for _, bb := range blk.Parent().Blocks {
-				if !blk.Dominates(bb) {
-					continue
-				}
-				for _, x := range bb.Instrs {
-					if call, ok := x.(*ssa.Call); ok {
-						if cal := staticCallee(&call.Call); cal != nil && pred(cal) {
-							res = true
-						}
+			found = true
+			over, under := b.Succs[overIdx], b.Succs[1-overIdx]
+			callsIn := func(blk *ssa.BasicBlock, pred func(f *ssa.Function) bool) bool {
+				res := false
+				for _, bb := range blk.Parent().Blocks {
+					if !blk.Dominates(bb) {
+						continue
 					}
-				}
-			}
-			return res
-		}
-		sends := func(f *ssa.Function) bool {
-			for _, op := range chanOpsOf(f) {
-				for _, a := range op.arms {
-					if a.send && fieldOfChan(a.ch) == "batchC" {
-						return true
-					}
-				}
-			}
-			// … or through a context-aware send helper of the module (chans.SendContext(bgCtx, out.batchC, batch))
-			res := false
-			instrs(f, func(_ *ssa.BasicBlock, _ int, in ssa.Instruction) {
-				if call, ok := in.(*ssa.Call); ok {
-					if cal := staticCallee(&call.Call); cal != nil && ctxBlockingHelper(c, origin(cal)) {
-						for _, a := range call.Call.Args {
-							if fieldOfChan(a) == "batchC" {
+					for _, x := range bb.Instrs {
+						if call, ok := x.(*ssa.Call); ok {
+							if cal := staticCallee(&call.Call); cal != nil && pred(cal) {
 								res = true
 							}
 						}
 					}
 				}
-			})
-			return res
-		}
-		arms := func(f *ssa.Function) bool {
-			res := false
-			instrs(f, func(b *ssa.BasicBlock, i int, in ssa.Instruction) {
-				if call, ok := in.(*ssa.Call); ok {
-					if cal := call.Call.StaticCallee(); cal != nil && (fname(cal) == "NewTimer" || fname(cal) == "Reset") {
-						res = true
+				return res
+			}
+			var sends func(f *ssa.Function) bool
+			sendsDepth := 0
+			sends = func(f *ssa.Function) bool {
+				// ... directly, or in a local closure it calls (flush -> deliver)
+				if sendsDepth < 3 && f.Blocks != nil {
+					sendsDepth++
+					inner := false
+					instrs(f, func(_ *ssa.BasicBlock, _ int, in ssa.Instruction) {
+						if call, ok := in.(*ssa.Call); ok {
+							if cal := staticCallee(&call.Call); cal != nil && cal != f && cal.Parent() != nil && rootFn(cal) == rootFn(f) && sends(cal) {
+								inner = true
+							}
+						}
+					})
+					sendsDepth--
+					if inner {
+						return true
 					}
 				}
-			})
-			return res
-		}
-		good := callsIn(over, sends) && !callsIn(over, arms) && callsIn(under, arms) && !callsIn(under, sends)
-		r.ok(good, "stream.BatchFunc|elapsed-guard", iff.Pos(), "the edge on which time.Since(batchStart) exceeds maxWait must flush, the other edge must arm the timer (direction fixed by what maxWait means)")
-	})
+				for _, op := range chanOpsOf(f) {
+					for _, a := range op.arms {
+						if a.send && fieldOfChan(a.ch) == "batchC" {
+							return true
+						}
+					}
+				}
+				// … or through a context-aware send helper of the module (chans.SendContext(bgCtx, out.batchC, batch))
+				res := false
+				instrs(f, func(_ *ssa.BasicBlock, _ int, in ssa.Instruction) {
+					if call, ok := in.(*ssa.Call); ok {
+						if cal := staticCallee(&call.Call); cal != nil && ctxBlockingHelper(c, origin(cal)) {
+							for _, a := range call.Call.Args {
+								if fieldOfChan(a) == "batchC" {
+									res = true
+								}
+							}
+						}
+					}
+				})
+				return res
+			}
+			arms := func(f *ssa.Function) bool {
+				res := false
+				instrs(f, func(b *ssa.BasicBlock, i int, in ssa.Instruction) {
+					if call, ok := in.(*ssa.Call); ok {
+						if cal := call.Call.StaticCallee(); cal != nil && (fname(cal) == "NewTimer" || fname(cal) == "Reset") {
+							res = true
+						}
+					}
+				})
+				return res
+			}
+			good := callsIn(over, sends) && !callsIn(over, arms) && callsIn(under, arms) && !callsIn(under, sends)
+			r.ok(good, "stream.BatchFunc|elapsed-guard", iff.Pos(), "the edge on which time.Since(batchStart) exceeds maxWait must flush, the other edge must arm the timer (direction fixed by what maxWait means)")
+		})
+	}
 	if !found {
 		r.violated("stream.BatchFunc|elapsed-guard", batcher.Pos(), "no comparison of time.Since(batchStart) with maxWait guards the immediate flush")
 	}
@@ -567,7 +590,11 @@ func ruleBatchDelivery(c *Ctx, r *R) {
 	r.ok(okClose, "stream.BatchFunc|producer-defer-close", producer.Pos(), "the producer must `defer close(c)` unconditionally so the batcher learns about the end on every exit")
 	// the batcher receives from that very channel
 	recvC := false
-	for _, op := range chanOpsOf(batcher) {
+	var batcherOps []chanOp
+	for _, h := range withAnon(batcher) { // (the select may sit in a local closure of the batcher: for step() {})
+		batcherOps = append(batcherOps, chanOpsOf(h)...)
+	}
+	for _, op := range batcherOps {
 		for _, a := range op.arms {
 			if !a.send && cCell != nil && loadCell(a.ch) == cCell {
 				recvC = true
@@ -1224,3 +1251,20 @@ var _ = late(func() {
 			}
 		}})
 })
+
+// throughLiteralParam: a parameter of a local function literal that has one call site stands for the argument of that call
+// (deliver := func(b []T) bool { ... out.batchC <- b ... }; deliver(batch)).
+func throughLiteralParam(v ssa.Value) ssa.Value {
+	for d := 0; d < 3; d++ {
+		p, ok := v.(*ssa.Parameter)
+		if !ok {
+			break
+		}
+		a := literalCallArg(p)
+		if a == nil {
+			break
+		}
+		v = a
+	}
+	return v
+}
